@@ -57,11 +57,6 @@ def scalePt (f p : List Rat) : List Rat := List.zipWith (fun fi x => x * fi) f p
 /-- `p ↦ (p_i + b_i)_i` -/
 def shiftPt (b p : List Rat) : List Rat := List.zipWith (fun bi x => x + bi) b p
 
-/-- The points of a coordinate-system conversion `as_(system)`: a pointwise function `φ` (the
-rational model keeps `φ` abstract; over `ℝ` it is `toPolar` / `toCart`) of the **current** points.
-There is no other state: no cache, no memory of earlier conversions. -/
-def convPoints (φ : List Rat → List Rat) (c : Coords) : List (List Rat) := c.points.map φ
-
 /-! ## In-place coordinate arithmetic (`__imul__`, `__iadd__`, `reverse`) -/
 
 /-- apply one function per axis to the coordinate values -/
@@ -261,6 +256,41 @@ def Coords.shiftVals : Coords → List (List Rat)
   | .unstructured c => c
 
 def Grid.shiftR (rnd : Rat → Rat) (b : List Rat) (g : Grid) : Grid := { g with coords := g.coords.shiftR rnd b }
+
+/-! ## Coordinate-system conversion `as_`: an exact executable model
+
+`_cartesian_to_polar` computes `(hypot(x, y), arctan2(y, x))`, `_polar_to_cartesian` computes
+`(r cos θ, r sin θ)`.  A rational model cannot hold `θ`; it holds the **direction** `(c, s) = (cos θ,
+sin θ)` instead — a rational point of the unit circle exactly when `x² + y²` is a rational square
+("Pythagorean" points).  A polar point of this model is `[r, c, s]`.  `none` = the radius is
+irrational (outside the exact model; the oracle and the `ℝ` theorems cover those points). -/
+
+/-- the non-negative rational square root, if there is one (`q` is in lowest terms, so it is a
+square iff numerator and denominator are) -/
+def ratSqrt? (q : Rat) : Option Rat :=
+  if q < 0 then none
+  else if q.num.natAbs.sqrt * q.num.natAbs.sqrt = q.num.natAbs ∧ q.den.sqrt * q.den.sqrt = q.den then
+    some ((q.num.natAbs.sqrt : Rat) / (q.den.sqrt : Rat))
+  else none
+
+/-- `(x, y) ↦ (hypot(x, y), direction of arctan2(y, x))`; `arctan2(0, 0) = 0`, direction `(1, 0)` -/
+def cartToPolar? : List Rat → Option (List Rat)
+  | [x, y] => (ratSqrt? (x * x + y * y)).map fun r => if r = 0 then [0, 1, 0] else [r, x / r, y / r]
+  | _ => none
+
+/-- `(r, θ) ↦ (r cos θ, r sin θ)` with `(cos θ, sin θ) = (c, s)` -/
+def polarToCart : List Rat → List Rat
+  | [r, c, s] => [r * c, r * s]
+  | p => p
+
+/-- `grid.as_('polar')` of a Cartesian grid: the conversion of its **current** points, one by one -/
+def Coords.asPolarPts (c : Coords) : List (Option (List Rat)) := c.points.map cartToPolar?
+
+/-- `grid.as_('cartesian')` of a polar grid whose `k`-th point has the direction `dirs[k]`
+(= `(cos θ_k, sin θ_k)`, supplied from outside: the model does not evaluate `cos`): the current
+radius of every point times its direction -/
+def Coords.asCartPts (dirs : List (Rat × Rat)) (c : Coords) : List (List Rat) :=
+  List.zipWith (fun p d => polarToCart [p.headD 0, d.1, d.2]) c.points dirs
 
 def dot (r p : List Rat) : Rat := ratSum (List.zipWith (· * ·) r p)
 
